@@ -544,6 +544,9 @@ class Engine(object):
     Called at beginning of _bring_all_up_to_date or _bring_mlookups_up_to_date.
     Makes sure cell change accumulation is reset.
     """
+    # Cells may have been recomputed outside of an update (e.g. a lookup made by a user action
+    # brings the dirty columns it reads up to date): issue those changes rather than lose them.
+    self._issue_changes()
     self._changes_map = OrderedDict()
     self._recompute_done_map = {}
     self._locked_cells = set()
@@ -556,14 +559,15 @@ class Engine(object):
     Called at end of _bring_all_up_to_date or _bring_mlookups_up_to_date.
     Issues actions for any accumulated cell changes.
     """
+    self._pre_update()  # issues the changes, and empties lists/sets/maps
+
+  def _issue_changes(self):
     for node, changes in self._changes_map.items():
       table = self.tables[node.table_id]
       col = table.get_column(node.col_id)
       # If there are changes, save them in out_actions.
       if changes and not col.is_private():
         self.out_actions.summary.add_changes(node.table_id, node.col_id, changes)
-
-    self._pre_update()  # empty lists/sets/maps
 
   def _update_loop(self, work_items, ignore_other_changes=False):
     """
